@@ -554,6 +554,22 @@ func (g *Gen) keyFor(name string, def TableDef, mt *MTable) Item {
 	if len(keys) == 0 {
 		return Item{def.Hash.Name: S("p")}
 	}
+	if mt != nil && g.P.MistypedAttrs && g.R.Chance(0.25) {
+		// an item that an index had to leave out because its index key attribute
+		// has another type than the index declares
+		var odd []string
+		for _, id := range sortedKeys(mt.Items) {
+			for _, kd := range indexAttrs(def) {
+				if v, ok := mt.Items[id][kd.Name]; ok && v.T != kd.Type {
+					odd = append(odd, id)
+					break
+				}
+			}
+		}
+		if len(odd) > 0 {
+			return keyOf(def, mt.Items[pick(g.R, odd)])
+		}
+	}
 	if mt != nil && len(mt.Items) > 0 && g.R.Chance(0.6) {
 		ids := sortedKeys(mt.Items)
 		it := mt.Items[pick(g.R, ids)]
@@ -847,6 +863,11 @@ func (g *Gen) update(name string, def TableDef, cur Item) Update {
 			continue
 		}
 		used[a.Path.Attr] = true
+		if !a.Path.Alias && r.Chance(0.2) {
+			// any action may reach its attribute through a #name (also the first
+			// element of a document path)
+			a.Path.Alias = true
+		}
 		u = append(u, a)
 	}
 	if len(u) == 0 {
@@ -1018,6 +1039,10 @@ func (g *Gen) try(m *Model, eng *Engine) *Cmd {
 	case "get":
 		cmd.Op, cmd.Actor = "Get", "reader"
 		cmd.Key = g.keyFor(name, def, mt)
+		if r.Chance(0.1) {
+			cmd.Proj = [][]string{{"a"}, {"a", "b"}, {"h"}, {"h", "r", "a"}, {"n", "ss"}, {"m", "l"}}[r.Intn(6)]
+			cmd.ProjNames = r.Chance(0.5)
+		}
 	case "query", "scan", "open":
 		cmd.Actor = "reader"
 		g.shape(cmd, name, def, kind != "scan" && (kind == "query" || r.Chance(0.6)))
@@ -1193,6 +1218,11 @@ func (g *Gen) try(m *Model, eng *Engine) *Cmd {
 		}
 		if len(cmd.Gets) == 0 {
 			return nil
+		}
+		if r.Chance(0.2) {
+			// one projection for the whole batch; it names the key attributes
+			cmd.Proj = append([]string{"h", "r"}, [][]string{{"a"}, {"a", "b"}, {"n", "ss"}, {}}[r.Intn(4)]...)
+			cmd.ProjNames = r.Chance(0.6)
 		}
 	case "transact":
 		cmd.Op, cmd.Actor, cmd.T = "Transact", "writer", ""
